@@ -235,7 +235,9 @@ static int fam_enc(Choice& c, Report& rep) {
     if (len <= 0) {
       // an encoder error is not C10's subject unless the budget was ample
       VP_REQUIRE(len < 0, "c10:encoder-returned-zero", "step %d: encoder returned 0", si);
-      rep.label(s.maxb >= 1500 * E.streams ? "encoder-error-ample-budget" : "encoder-error-small-budget");
+      // with 1500 bytes per stream (+2500) every supported layout must be able to emit a packet
+      VP_REQUIRE(s.maxb < 1500 * E.streams, "c10:encoder-error-ample-budget", "step %d: encoder returned %d for %d samples with a %d-byte budget (%d streams)", si, len, n, s.maxb, E.streams);
+      rep.label("encoder-error-small-budget");
       break;
     }
     VP_REQUIRE(len <= s.maxb, "c10:encoder-overruns-budget", "step %d: %d bytes returned for a %d-byte budget", si, len, s.maxb);
@@ -246,6 +248,13 @@ static int fam_enc(Choice& c, Report& rep) {
                kind == 5 ? "projection" : "multistream", E.streams, E.streams - 1, why.c_str());
     for (int k = 0; k < E.streams; k++)
       VP_REQUIRE(subs[k].dur_400 == cu::DUR400[s.d], "c10:sub-packet-duration", "step %d: stream %d carries %g ms, %g ms were submitted (toc 0x%02x, %d frames)", si, k, subs[k].dur_400 * 2.5, cu::DUR400[s.d] * 2.5, subs[k].p.toc, subs[k].p.count);
+    if (kind == 1 && E.channels >= 6 && s.maxb >= 1500 * E.streams) {
+      // 5.1 / 6.1 / 7.1: the last stream carries the LFE speaker and is coded as a low-pass (CELT narrowband) stream
+      const msu::Sub& l = subs.back();
+      bool tiny = true; for (int i = 0; i < l.p.count; i++) if (l.p.size[i] > 1) tiny = false;
+      rfc::TocInfo t = rfc::toc_info(l.p.toc);
+      if (!tiny) { VP_REQUIRE(t.mode == rfc::CELT && t.bw == rfc::NB, "c10:lfe-stream-not-lowpass", "step %d: %d-channel surround, LFE stream (last) has toc 0x%02x (mode %d bandwidth %d)", si, E.channels, l.p.toc, t.mode, t.bw); rep.label("lfe-stream-checked"); }
+    }
     rep.label("structure-checked");
     if (E.streams >= 2 && subs[0].p.count > 1) rep.label("multi-frame-sub-packets");
     if (subs.back().p.padding_len > 0) rep.label("last-stream-padded");
